@@ -507,22 +507,38 @@ func TestVerifC22(t *testing.T) {
 }
 
 // c22FindSeries looks for label values that give the wanted placement shape on a ring (harness
-// construction only).
-func c22FindSeries(tb testing.TB, cfg vfConfig, tenant string, n int, disjointFirst bool) []prompb.TimeSeries {
+// construction only): the replica node sets of the series are pairwise disjoint when the ring has enough
+// nodes for that, otherwise at least their first replicas differ.
+func c22FindSeries(tb testing.TB, cfg vfConfig, tenant string, n int) []prompb.TimeSeries {
 	hz := vfNewHarness(tb, cfg)
 	defer hz.close()
+	wantDisjoint := n*int(cfg.rf) <= cfg.nodes
 	var out []prompb.TimeSeries
 	used := map[string]bool{}
-	for v := 0; v < 2000 && len(out) < n; v++ {
+	for v := 0; v < 5000 && len(out) < n; v++ {
 		s := vfSeries("m", "a", strconv.Itoa(v))
-		ep, err := hz.ring.GetN(tenant, &s, 0)
-		if err != nil {
-			tb.Fatalf("harness: %v", err)
+		var eps []string
+		clash := false
+		for r := uint64(0); r < cfg.rf; r++ {
+			ep, err := hz.ring.GetN(tenant, &s, r)
+			if err != nil {
+				tb.Fatalf("harness: %v", err)
+			}
+			if used[ep.Address] && (wantDisjoint || r == 0) && len(used) < cfg.nodes {
+				clash = true
+			}
+			eps = append(eps, ep.Address)
 		}
-		if disjointFirst && used[ep.Address] && len(used) < cfg.nodes {
+		if clash {
 			continue
 		}
-		used[ep.Address] = true
+		if wantDisjoint {
+			for _, a := range eps {
+				used[a] = true
+			}
+		} else {
+			used[eps[0]] = true
+		}
 		out = append(out, s)
 	}
 	if len(out) < n {
@@ -564,8 +580,11 @@ func TestVerifC22_Exhaustive(t *testing.T) {
 	unit := 0
 	for _, sp := range spaces {
 		for _, algo := range []HashringAlgorithm{AlgorithmKetama, AlgorithmHashmod} {
+			if sp.rf == 3 && sp.series == 2 && algo == AlgorithmHashmod {
+				continue // 3^6 x 6! executions: one ring is enough, the ring only decides the placement
+			}
 			cfg := vfConfig{rf: uint64(sp.rf), nodes: sp.nodes, algo: algo, mode: sp.mode}
-			series := c22FindSeries(t, cfg, "t0", sp.series, true)
+			series := c22FindSeries(t, cfg, "t0", sp.series)
 			base := &c22Scenario{cfg: cfg, entry: c22EntryForward, rep: sp.rep, data: []vfTuple{{tenant: "t0", series: series}}, matrix: map[string]vfSpec{}, down: map[string]bool{}}
 			// destinations of this request (one probe execution with all-success outcomes)
 			probe := c22Exec(t, base, c22Identity)
